@@ -10,12 +10,16 @@ def call(mod, pb):
     return mod.solve_nurimisaki(pb["h"], pb["w"], pb["grid"])
 
 
+def ncand(pb):
+    return 2 ** (pb['h'] * pb['w'])
+
+
 def encode(pb):
     return [[pb["h"], pb["w"]], L.flat(pb["grid"])]
 
 
 def _values(h, w):
-    return [-1, 0] + list(range(2, max(h, w) + 1))
+    return [-1, 0] + list(range(1, max(h, w) + 1))
 
 
 def families(tier, rng):
@@ -26,6 +30,12 @@ def families(tier, rng):
     for (h, w) in [(1, 4), (2, 3), (3, 2), (3, 3), (2, 4), (4, 2), (3, 4), (4, 4)]:
         for _ in range(200 if th else 25):
             yield {"h": h, "w": w, "grid": L.random_grid(rng, h, w, _values(h, w), 0.75)}
+
+
+def classify(pb, what):
+    if any(v == 1 for row in pb["grid"] for v in row):
+        return "nurimisaki:clue-1"
+    return None
 
 
 def tier2(tier, rng):
